@@ -93,6 +93,9 @@ def factories(rng):
     add('rvq-shared-learnable', lambda: ResidualVQ(dim=3, num_quantizers=2, codebook_size=6, shared_codebook=True, learnable_codebook=True, ema_update=False,
                                                     in_place_codebook_optimizer=partial(SGD, lr=0.5)), 3, True, dec_vq)
     add('rvq-dropout', lambda: ResidualVQ(dim=3, num_quantizers=4, codebook_size=5, quantize_dropout=True, threshold_ema_dead_code=1, decay=0.5), 3, True, dec_vq, stochastic=True)
+    # scarce batches for a large k-means codebook with expiry: after one training step EVERY code is below the dead-code threshold at once
+    add('vq-kmeans-expiry-scarce', lambda: VectorQuantize(dim=3, codebook_size=16, kmeans_init=True, kmeans_iters=2, threshold_ema_dead_code=2, decay=0.5), 3, True, dec_vq, has_cb=True, kmeans=True)
+    add('rvq-kmeans-expiry-scarce', lambda: ResidualVQ(dim=3, num_quantizers=2, codebook_size=16, kmeans_init=True, kmeans_iters=2, threshold_ema_dead_code=2, decay=0.5), 3, True, dec_vq, kmeans=True)
     add('rvq-kmeans', lambda: ResidualVQ(dim=3, num_quantizers=2, codebook_size=4, kmeans_init=True, kmeans_iters=2), 3, True, dec_vq, kmeans=True)
     add('rvq-implicit', lambda: ResidualVQ(dim=3, num_quantizers=2, codebook_size=4, implicit_neural_codebook=True, mlp_kwargs=dict(dim_hidden=4, depth=1)), 3, True, dec_vq)
     add('grvq', lambda: GroupedResidualVQ(dim=4, groups=2, num_quantizers=2, codebook_size=5, decay=0.5, threshold_ema_dead_code=1), 4, True, dec_vq)
@@ -175,11 +178,13 @@ def correspond(ctx, scale):
             trained = False
             last_idx = None
             trace = []
+            never_initted = {k for k, v in blob(mod).items() if k.endswith('initted') and not bool(v.all())}
             for oi, op in enumerate(ops):
                 x = f['mkx']() if f.get('mkx') else (torch.randn(2, f['dim'], 3) if f['image'] else torch.randn(2, 4, f['dim']))
                 if rng.random() < 0.3:
                     x = x * rng.choice([0.0, 1e-3, 10.0])
                 before = blob(mod)
+                allowed_uninit = set(never_initted)
                 seed = rng.randrange(10 ** 6)
                 evaluations += 1
                 trace.append(op)
@@ -252,6 +257,7 @@ def correspond(ctx, scale):
                     failures.append({'key': f'{f["name"]}:{op}:exception:{type(ex).__name__}', 'what': f'{f["name"]} op {op} after {trace}: {ex!r}',
                                      'case': dict(name=f['name'], ops=trace)})
                     break
+                never_initted = {k for k in never_initted if not bool(blob(mod)[k].all())}
                 if op in ('train', 'train-bwd'):
                     trained = True
                     dist['train_ops'] += 1
@@ -261,6 +267,12 @@ def correspond(ctx, scale):
                 after = blob(mod)
                 ok, why = same(before, after)
                 first_init = f['kmeans'] and any(k.endswith('initted') and not bool(v.all()) for k, v in before.items())
+                # the k-means exception is granted ONCE per codebook: a flag that was set and is clear again (whatever cleared it) does not earn a second one
+                uninit_now = {k for k, v in before.items() if k.endswith('initted') and not bool(v.all())}
+                if first_init and not (uninit_now <= allowed_uninit):
+                    first_init = False
+                    failures.append({'key': f'{f["name"]}:{op}:initialised-flag-cleared', 'what': f'{f["name"]}: a codebook that had been initialised is marked un-initialised again before the pure call "{op}" (history {trace}): '
+                                     f'{sorted(uninit_now - allowed_uninit)[:2]}', 'case': dict(name=f['name'], ops=trace)})
                 if not ok and first_init:
                     dist['kmeans_first_call_exceptions'] += 1
                     ok = True
